@@ -87,12 +87,34 @@ def run(tier='quick', repo=None):
                     bad.append('%s for REGISTER: %s, %s for UNREGISTER: %s' % (a, a in r, b, b in un))
             rep.add('R-reqpair', rname, VIOLATED if bad else HOLDS, u.funcs[rname].loc, register=sorted(r), unregister=sorted(un),
                     **({'what': 'register and unregister use different mechanisms: ' + '; '.join(bad)} if bad else {}))
+    # ---- R-bin-fields -------------------------------------------------------------------
+    rep.rule('R-bin-fields', 'a pipe type that instantiates both UPIPE_HELPER_BIN_INPUT and UPIPE_HELPER_BIN_OUTPUT binds FIRST_INNER and LAST_INNER to two different '
+             'structure members: with one member store_bin_output() overwrites the pipe store_bin_input() has to withdraw the listed requests from, so the old '
+             'inner pipe never sees the UNREGISTER and the new one gets an UNREGISTER for requests it never received')
+    nbin = 0
+    for uname, u in sorted(prog.units.items()):
+        bound = {}
+        for fn in u.funcs.values():
+            if fn.macro in ('UPIPE_HELPER_BIN_INPUT', 'UPIPE_HELPER_BIN_OUTPUT') and fn.blocks:
+                want = 'FIRST_INNER' if fn.macro == 'UPIPE_HELPER_BIN_INPUT' else 'LAST_INNER'
+                for bid, st, x in fn.nodes():
+                    if x.get('k') == 'mem' and x.get('mp') == want and x.get('rec'):
+                        bound.setdefault(x['rec'], {}).setdefault(want, (x.get('f'), fn))
+        for rec, b in sorted(bound.items()):
+            if len(b) < 2:
+                continue
+            nbin += 1
+            same = b['FIRST_INNER'][0] == b['LAST_INNER'][0]
+            rep.add('R-bin-fields', rec, VIOLATED if same else HOLDS, b['FIRST_INNER'][1].loc, first_inner=b['FIRST_INNER'][0], last_inner=b['LAST_INNER'][0],
+                    **({'what': 'struct %s: the bin input and the bin output helpers both manage member %s' % (rec, b['FIRST_INNER'][0])} if same else {}))
+    if nbin < 3:
+        raise facts.AnalysisBroken('only %d pipe types with both bin helpers found' % nbin)
     # ---- helper instantiations ---------------------------------------------------------
     for uname, u in sorted(prog.units.items()):
         for fn in sorted(u.funcs.values(), key=lambda f: f.name):
-            if fn.macro != 'UPIPE_HELPER_OUTPUT':
+            if fn.macro not in ('UPIPE_HELPER_OUTPUT', 'UPIPE_HELPER_BIN_INPUT'):
                 continue
-            if fn.name.endswith('_set_output'):
+            if fn.macro == 'UPIPE_HELPER_OUTPUT' and fn.name.endswith('_set_output'):
                 ev = pr.Events(fn)
                 unreg = pr.m_call('upipe_unregister_request')
                 reg = pr.m_call('upipe_register_request')
@@ -140,6 +162,37 @@ def run(tier='quick', repo=None):
                     loads = [p for p in ev.find(lambda n: n.get('k') == 'mem' and n.get('f') == 'registered')]
                     if not loads:
                         why.append('the registered flag is not consulted: requests would be registered twice')
+                rep.add('R-replay', fn.name, VIOLATED if why else HOLDS, fn.loc, **({'what': '; '.join(sorted(set(why)))} if why else {}))
+            elif fn.macro == 'UPIPE_HELPER_BIN_INPUT' and fn.name.endswith('_store_bin_input'):
+                # the same obligations for a bin whose first inner pipe is replaced (cleared, then rebuilt)
+                ev = pr.Events(fn)
+                why = []
+                unreg_, reg_ = pr.m_call('upipe_unregister_request'), pr.m_call('upipe_register_request')
+                stc = lambda n: n.get('k') == 'call' and re.match(r'\w+_store_\w+$', n.get('fn') or '') and n.get('fn') != fn.name
+                old = lambda n: n.get('k') == 'mem' and n.get('mp') == 'FIRST_INNER'
+                if not ev.find(stc):
+                    raise facts.AnalysisBroken('%s: the store of the first inner pipe was not found' % fn.name)
+                if not ev.find(unreg_):
+                    why.append('no upipe_unregister_request on the old inner pipe')
+                else:
+                    for c in ev.find(unreg_):
+                        me = (lambda p_: (lambda n: n is p_[2]))(c)
+                        if not pr.never_after(ev, me, me):
+                            why.append('upipe_unregister_request is not in a loop over the request list')
+                    if pr.never_after(ev, stc, unreg_):
+                        why.append('a request is unregistered after the inner pipe was replaced (from the wrong pipe)')
+                # every path to the replacement looks at the old inner pipe (and withdraws from it when there is one):
+                # clearing the inner pipe (NULL) must withdraw too, or the requests stay flagged as registered and are
+                # never re-issued to the next inner pipe
+                if pr.must_precede(ev, old, stc):
+                    why.append('a path replaces the inner pipe without having examined the old one: the requests are not withdrawn from it, stay flagged as '
+                               'registered and are never re-issued to the next inner pipe')
+                if not ev.find(reg_):
+                    why.append('no upipe_register_request on the new inner pipe')
+                elif ev.reach(None, reg_, stc, from_entry=True)[0]:
+                    why.append('a request is registered before the new inner pipe is stored')
+                if not ev.find(lambda n: n.get('k') == 'mem' and n.get('f') == 'registered'):
+                    why.append('the registered flag is not consulted: requests would be registered twice')
                 rep.add('R-replay', fn.name, VIOLATED if why else HOLDS, fn.loc, **({'what': '; '.join(sorted(set(why)))} if why else {}))
             elif fn.name.endswith('_unregister_output_request'):
                 ev = pr.Events(fn)
